@@ -11,7 +11,8 @@ LEVEL = "exploration"
 RULE = ("cases are (operation, operand constructors, values, lengths, k/shift/slice) tuples; exhaustive over all values "
         "of every length <= 8 for unary ops and all pairs of lengths <= 6 for binary ops; beyond that Hypothesis draws "
         "lengths 0..300 with values from random and the boundary family {0,1,2^k-1,2^k,2^k+1}; oracle = MSB-first "
-        "list-of-bits model (value and length). Non-trivial = some operand longer than 8 bits or built without explicit "
+        "list-of-bits model (value and length); iteration is also checked with two iterators alive on the same object (zip(x,x), "
+        "an iterator suspended after k bits and resumed after another full iteration, nested loops). Non-trivial = some operand longer than 8 bits or built without explicit "
         "length, or a binary op on unequal lengths; distinct = distinct case tuple.")
 ASSUMPTIONS = ["negative indices, __setitem__, from_sequence and plain-int right operands are outside the stated property",
                "the reference model is written independently on Python lists of 0/1"]
@@ -130,6 +131,23 @@ def run_case(case):
             got = list(a)
             if got != [bool(b) for b in ma] or any(type(x) is not bool for x in got):
                 raise Violation("iter(): %r vs model %r" % (got, ma), "iter")
+            # iterators are independent values: several may be alive over the same bit string
+            want = [bool(b) for b in ma]
+            if list(zip(a, a)) != list(zip(want, want)):
+                raise Violation("zip(x, x) gives %d pairs %r..., the model %d" % (len(list(zip(a, a))), list(zip(a, a))[:3], n), "iter:zip_self")
+            k = case.get("k", 1) % (n + 1)
+            it1 = iter(a)
+            head = [next(it1) for _ in range(k)]
+            it2 = iter(a)
+            full = list(it2)
+            probe = (True in a, len(str(a)))   # other uses of the object while it1 is suspended
+            tail = list(it1)
+            if head + tail != want or full != want:
+                raise Violation("an iterator suspended after %d of %d bits and resumed after another full iteration yields %r + %r, a second "
+                                "iterator %r; model %r" % (k, n, head, tail, full, want), "iter:two_live_iterators")
+            if n <= 40 and sum(1 for _x in a for _y in a) != n * n:
+                raise Violation("nested iteration over the same %d-bit string visits %d pairs, expected %d" % (
+                    n, sum(1 for _x in a for _y in a), n * n), "iter:nested")
         elif op == "eq_copy":
             c = Bitset(to_int(ma), n) if n else Bitset(0, 0)
             if n and not (a == c):
@@ -336,7 +354,7 @@ def st_case(draw):
                 steps.append([k])
         case["steps"] = steps
         return case
-    if op in UNARY_K:
+    if op in UNARY_K or op == "iter":
         case["k"] = draw(st.integers(0, 310))
     if op in BINARY:
         if draw(st.booleans()):
